@@ -20,6 +20,9 @@ var c13Families = []family{
 	{`query($d1: Boolean!, $d2: Boolean!) { me { id ... @defer(if: $d1, label: "A") { best { id ... @defer(if: $d2, label: "B") { boss { id } } } friends { id } } } }`, []string{"d1", "d2"}},
 	// a non-null resolver-backed sibling outside the fragment: when it fails the object that carries the deferred group is nulled
 	{`query($d1: Boolean!) { me { boss { id } ... @defer(if: $d1, label: "A") { best { id } friends { id } } } }`, []string{"d1"}},
+	// one label group whose resolver-backed fields are not adjacent (a plain field in between), and interleaved label groups
+	{`query($d1: Boolean!) { me { id ... @defer(if: $d1, label: "A") { best { id } name age boss { id } } } }`, []string{"d1"}},
+	{`query($d1: Boolean!, $d2: Boolean!) { me { ... @defer(if: $d1, label: "X") { best { id } } ... @defer(if: $d2, label: "Y") { boss { id } } ... @defer(if: $d1, label: "X") { friends { id } } } }`, []string{"d1", "d2"}},
 }
 
 var c13Docs []*ast.QueryDocument
